@@ -5,6 +5,7 @@
    input, percent-escapes that decode to bytes >= 0x80, bracketed hosts outside a small literal table)
    is Unmodelled.  Tied to the code by harness/drv_C06.py: every generated string is run through the real
    urllib.parse functions and the real verify_uri, and compared with this model inside coqc. *)
+From Coq Require Import String.
 From Verif Require Import Lib.Base Lib.PyStr Lib.Urlenc.
 Open Scope N_scope.
 
@@ -81,8 +82,8 @@ Fixpoint span_netloc (s : pystr) : pystr * pystr :=
 
 (* _check_bracketed_host through ipaddress.ip_address: only a literal table is modelled *)
 Definition v6_ok : list pystr :=
-  [ PS "::1"; PS "0000:0000:0000:0000:0000:0000:0000:0001"; PS "0:0:0:0:0:0:0:1"; PS "::"; PS "2001:db8::1" ].
-Definition v6_bad : list pystr := [ []; PS "127.0.0.1"; PS "localhost" ].
+  [ PS "::1"%string; PS "0000:0000:0000:0000:0000:0000:0000:0001"%string; PS "0:0:0:0:0:0:0:1"%string; PS "::"%string; PS "2001:db8::1"%string ].
+Definition v6_bad : list pystr := [ []; PS "127.0.0.1"%string; PS "localhost"%string ].
 Definition check_brackets (nl : pystr) : res unit :=
   let o := has_c 91 nl in let c := has_c 93 nl in
   if (o && negb c) || (c && negb o) then Err ValueError
@@ -105,8 +106,8 @@ Definition urlsplit (url0 : pystr) : res parsed :=
   Ok (mkParsed sch nl pth [] qry frag).
 
 Definition uses_params : list pystr :=
-  [ []; PS "ftp"; PS "hdl"; PS "prospero"; PS "http"; PS "imap"; PS "https"; PS "shttp"; PS "rtsp";
-    PS "rtsps"; PS "rtspu"; PS "sip"; PS "sips"; PS "mms"; PS "sftp"; PS "tel" ].
+  [ []; PS "ftp"%string; PS "hdl"%string; PS "prospero"%string; PS "http"%string; PS "imap"%string; PS "https"%string; PS "shttp"%string; PS "rtsp"%string;
+    PS "rtsps"%string; PS "rtspu"%string; PS "sip"%string; PS "sips"%string; PS "mms"%string; PS "sftp"%string; PS "tel"%string ].
 
 (* _splitparams: the first ';' of the last path segment *)
 Definition splitparams (url : pystr) : pystr * pystr :=
@@ -220,8 +221,8 @@ Definition basic_checks (p : parsed) : res unit :=
   end.
 
 Definition loopbacks : list pystr :=
-  [ PS "127.0.0.1"; PS "::1"; PS "0000:0000:0000:0000:0000:0000:0000:0001" ].
-Definition is_http (p : parsed) : bool := str_eqb (scheme p) (PS "http").
+  [ PS "127.0.0.1"%string; PS "::1"%string; PS "0000:0000:0000:0000:0000:0000:0000:0001"%string ].
+Definition is_http (p : parsed) : bool := str_eqb (scheme p) (PS "http"%string).
 Definition is_localhost (p : parsed) : bool :=
   match hostname p with Some h => str_in h loopbacks | None => false end.
 Definition set_netloc (p : parsed) (nl : pystr) : parsed :=
